@@ -185,7 +185,7 @@ extern "C" void h_hint_qr(void) {
 static void sym(GenericResourceRecord& g) { sstr(g.name); g.classtype.type = nondet_u16(); g.classtype.class_ = nondet_u16(); oi(g.ttl); os(g.rdata); }
 extern "C" void h_generic_lists(void) {
     uint8_t rr_hints = nondet_u8();
-    CdnsBlock* b = new_block(nondet_u32(), nondet_u32(), rr_hints, nondet_u8(), 3);
+    CdnsBlock* b = new_block(0, 0, rr_hints, 0, 3);       // the list functions read the RR hint mask only
     std::vector<GenericResourceRecord>* lp = new std::vector<GenericResourceRecord>(); std::vector<GenericResourceRecord>& l = *lp;
     Box<GenericResourceRecord> g0, g1; new (&g0.v) GenericResourceRecord(); new (&g1.v) GenericResourceRecord(); sym(g0.v); sym(g1.v);
 #ifdef GLIST_CONCRETE
@@ -197,6 +197,10 @@ extern "C" void h_generic_lists(void) {
       g0.v.classtype.type = 1; g0.v.classtype.class_ = 1; g1.v.classtype.type = (GLIST_CONCRETE == 2) ? 1 : 28; g1.v.classtype.class_ = 1;
       g0.v.rdata.m_val.m_len = 1; g0.v.rdata.m_val.m_data[0] = 'x'; g1.v.rdata.m_val.m_len = 1; g1.v.rdata.m_val.m_data[0] = 'y';
       for (size_t i = 1; i < VS_STRCAP + 1; i++) { g0.v.rdata.m_val.m_data[i] = 0; g1.v.rdata.m_val.m_data[i] = 0; } }
+#if GLIST_CONCRETE == 3
+    // TTL only: no record carries RDATA, both records share name and class/type
+    g0.v.rdata.m_init = false; g1.v.rdata.m_init = false; g1.v.name.m_data[0] = 'a'; g1.v.classtype.type = 1;
+#endif
 #endif
     l.push_back(g0.v); l.push_back(g1.v);
 #ifdef GLIST_RR
